@@ -145,6 +145,8 @@ def main():
     t0 = time.time()
     seed = int(os.environ.get("VERIF_SEED", "0"))
     os.environ.setdefault("VERDE_VERIF", "1")
+    import warnings
+    warnings.simplefilter("ignore")
     try:
         C.assert_repo_verde()
         P = importlib.import_module("props." + prop.lower())
